@@ -70,6 +70,16 @@ def get_filesystem(path: str) -> 'FileSystem[Any]':
     raise ValueError(f'Unrecognised filesystem for "{path}"')
 
 
+def _is_inside(filename: str, folder: str) -> bool:
+    """Check if a file is located in the folder or one of its subfolders.
+
+    Both must use forward slashes and the same case. Whole folder names are compared, so
+    ``mat2/file.txt`` is not inside ``mat``. The empty folder contains everything.
+    """
+    folder = folder.rstrip('/')
+    return not folder or filename.startswith(folder + '/')
+
+
 class RootEscapeError(ValueError):
     """Raised when a path tries to refer to a file outside the root of a filesystem."""
     root: str
@@ -480,7 +490,7 @@ class VirtualFileSystem(FileSystem[str]):
 
         # The keys are cleaned the same way as the folder, the original filenames may use any case.
         for cleaned, (filename, data) in self._mapping.items():
-            if cleaned.startswith(folder):
+            if _is_inside(cleaned, folder):
                 yield File(self, filename, filename)
 
     def _file_exists(self, name: str) -> bool:
@@ -597,7 +607,7 @@ class ZipFileSystem(FileSystem[ZipInfo]):
         # \\ is not allowed in zips.
         folder = folder.replace('\\', '/').casefold()
         for filename, fileinfo in self._name_to_info.items():
-            if filename.startswith(folder):
+            if _is_inside(filename, folder):
                 yield File(self, fileinfo.filename, fileinfo)
 
     def open_bin(self, name: Union[str, File[Self]]) -> BinaryIO:
@@ -677,7 +687,7 @@ class VPKFileSystem(FileSystem[VPKFile]):
         # All VPK files use forward slashes.
         folder = folder.replace('\\', '/')
         for file in self._name_to_file.values():
-            if file.dir.startswith(folder):
+            if _is_inside(file.filename, folder):
                 yield File(self, file.filename, file)
 
     def open_bin(self, name: Union[str, File[Self]]) -> BinaryIO:
